@@ -7,6 +7,7 @@ import DvcData.Model.Tree
 import DvcData.Model.Serialize
 import DvcData.Model.Status
 import DvcData.Model.Transfer
+import DvcData.Model.TransferR
 import DvcData.Model.IndexDiff
 import DvcData.Model.IndexCheckout
 import DvcData.Model.IndexSave
@@ -326,6 +327,12 @@ def opTransfer (j : Lean.Json) : Except String Lean.Json := do
     let newDirs := c.new.filter isDirStr
     -- processing order: the order observed on the implementation, completed by the remaining new dirs
     let dirOrder := (order.filter (· ∈ newDirs)) ++ newDirs.filter (· ∉ order)
+    -- new directory objects whose listing cannot be read at transfer time: the transfer gives up (no result)
+    let unreadable := (strList j "unreadable").toOption.getD []
+    let files := c.new.filter fun x => !isDirStr x
+    if (Transfer.doTransferR cx (fun d => d ∉ unreadable) { dest := dest, pending := files, failed := [] } dirOrder).isNone then
+      return Lean.Json.mkObj [("gave_up", .bool true),
+        ("dest", strArr (Transfer.destAtGiveUp cx (fun d => d ∉ unreadable) dirOrder { dest := dest, pending := files, failed := [] }))]
     let r := Transfer.transferWith cx dest c.new c.destIndex dirOrder
     pure (Lean.Json.mkObj [("transferred", strArr r.transferred), ("failed", strArr r.failed),
       ("dest", strArr r.dest), ("index", rindexTo r.destIndex), ("new", strArr c.new), ("missing", strArr c.missing),
